@@ -28,7 +28,7 @@ EXPLANATION = (
     "frozen delegate; __eq__/__hash__ never look at metadata; with_meta is pure and installs exactly the given metadata; a "
     "mutator may return `self` unchanged only behind identity/emptiness tests, never behind a Python == on element values."
 )
-DECIDES = "no stores to value fields, evolver non-escape, transient hand-off, metadata invisible to =/hash, with_meta pure and exact, no ==-guarded self-return shortcuts"
+DECIDES = "no stores to value fields, evolver non-escape, transient hand-off, metadata invisible to =/hash, with_meta pure and exact, no ==-guarded self-return shortcuts, nil metadata installed like any other, pop stays in its collection type, nth covers every sequential collection"
 DECLINED = "agreement of each operation's result with the mathematical model (values); internals of pyrsistent / immutables"
 TRUSTED = ["FT-delegate: pyrsistent pvector/plist/pdeque and immutables.Map are immutable; evolver()/mutate() are copy-on-write"]
 ASSUMPTIONS = []
